@@ -29,10 +29,10 @@ On(a) == a \in Atoms
 Can == ~fin /\ budget > 0
 Emitted(s, ts, lc) == /\ cur' = cur \o s /\ toks' = toks \o ts /\ lastc' = lc
                       /\ budget' = budget - 1 /\ UNCHANGED <<lines, fin>>
-AfterCloser == lastc \in {"cl:*", "cl:_"}
+AfterCloser == lastc \in {"cl:*", "cl:_"}   \* ("clw" = closer of an intraword *-emphasis: a word may follow)
 AfterOpener == lastc \in {"op:*", "op:_"}
 \* characters after which ordinary content may follow directly
-Plain == lastc \in {"bol", "sp", "w", "p", "br"} \/ AfterOpener
+Plain == lastc \in {"bol", "sp", "w", "p", "br", "clw"} \/ AfterOpener
 \* after a closing delimiter run only white space, punctuation or the end may follow
 \* (6.2: the run stays right-flanking and, for '_', is not intraword)
 
@@ -79,7 +79,8 @@ Code == /\ Can /\ On("code") /\ (Plain \/ AfterCloser) /\ lastc # "tick"
         /\ UNCHANGED <<open, used, inlink>>
 
 \* 6.3 links (inline), 6.4 images; link text is a fixed small inline
-Texts == {<<"link", "link", "link">>, <<"*em* t", "<em>em</em> t", "em t">>, <<"`c]d`", "<code>c]d</code>", "c]d">>, <<"a \\] b", "a ] b", "a ] b">>}
+Texts == {<<"link", "link", "link">>, <<"*em* t", "<em>em</em> t", "em t">>, <<"`c]d`", "<code>c]d</code>", "c]d">>, <<"a \\] b", "a ] b", "a ] b">>,
+          <<"a [b] c", "a [b] c", "a [b] c">>, <<"![i](/s)", "<img src=\"/s\" alt=\"i\" />", "i">>}
 Dests == {<<"/url", "/url">>, <<"</my url>", "/my%20url">>, <<"/a(b)c", "/a(b)c">>, <<"/a\\)b", "/a)b">>, <<"", "">>, <<"<>", "">>,
           <<"/u&auml;&amp;", "/u%C3%A4&amp;">>, <<"/q?a=b&c", "/q?a=b&amp;c">>, <<"/x\\*y", "/x*y">>, <<"<a\\>b>", "a%3Eb">>, <<"#frag", "#frag">>, <<"/%20%zz", "/%20%25zz">>}
 Titles == {<<"", "">>, <<" \"ti tle\"", " title=\"ti tle\"">>, <<" 't\"q'", " title=\"t&quot;q\"">>, <<" (par en)", " title=\"par en\"">>,
@@ -120,6 +121,33 @@ Raw == /\ Can /\ On("raw") /\ (Plain \/ AfterCloser) /\ lastc # "bol"
        /\ \E r \in Pick(Raws) : Emitted(r, <<r>>, "p")
        /\ UNCHANGED <<open, used, inlink>>
 
+
+\* 6.2 intraword emphasis: '*' opens and closes inside a word, '_' does not
+Intra == /\ Can /\ On("emph") /\ lastc = "w" /\ open = <<>>
+         /\ \E k \in Pick({"*", "**", "_", "__"}) :
+              Emitted(k \o "bar" \o k,
+                      CASE k = "*" -> <<"<em>bar</em>">> [] k = "**" -> <<"<strong>bar</strong>">> [] OTHER -> <<k \o "bar" \o k>>,
+                      IF k \in {"*", "**"} THEN "clw" ELSE "cl:_")   \* literal underscores: nothing that could join their run may follow
+         /\ UNCHANGED <<open, used, inlink>>
+
+\* 6.3: links may not contain other links - the inner one wins and the outer brackets are text
+NestedLink == /\ Can /\ On("link") /\ (Plain \/ AfterCloser) /\ lastc # "br"
+              /\ Emitted("[a [in](/x) b](/y)", <<"[a <a href=\"/x\">in</a> b](/y)">>, "br")
+              /\ UNCHANGED <<open, used, inlink>>
+
+\* constructs that continue across a line ending: code span (the line ending becomes a space),
+\* raw HTML tag and link title (the line ending stays)
+Spans == {<<"`a", "b`", "<code>a b</code>", "tick">>, <<"``c ", " d``", "<code>c   d</code>", "tick">>,
+          <<"<b a='x", "y'>", "<b a='x\ny'>", "p">>, <<"[l](/u 'ti", "tle')", "<a href=\"/u\" title=\"ti\ntle\">l</a>", "br">>,
+          <<"[l](/u", "\"t\")", "<a href=\"/u\" title=\"t\">l</a>", "br">>, <<"[te", "xt](/u)", "<a href=\"/u\">te\nxt</a>", "br">>}
+Span == /\ Can /\ On("break") /\ (Plain \/ AfterCloser) /\ lastc \notin {"bol", "tick", "br"} /\ Len(lines) < 2
+        /\ \E sp \in Pick(Spans) :
+             /\ lines' = Append(lines, cur \o sp[1])
+             /\ cur' = sp[2]
+             /\ toks' = Append(toks, sp[3])
+             /\ lastc' = sp[4] /\ budget' = budget - 1
+        /\ UNCHANGED <<open, used, fin, inlink>>
+
 \* 6.7 hard line breaks, 6.8 soft line breaks
 Break == /\ Can /\ On("break") /\ lastc \notin {"bol", "sp"} /\ ~AfterOpener /\ Len(lines) < 2
          /\ \E k \in Pick({"soft", "soft1", "hard2", "hard3", "hardbs"}) :
@@ -136,7 +164,7 @@ Finish == /\ ~fin /\ open = <<>> /\ lastc \notin {"bol", "sp"} /\ cur # ""
 
 Init == /\ cur = "" /\ lines = <<>> /\ toks = <<>> /\ lastc = "bol" /\ open = <<>> /\ used = {}
         /\ budget = Budget /\ fin = FALSE /\ inlink = FALSE
-Next == Word \/ Space \/ Esc \/ OpenEm \/ CloseEm \/ Code \/ Link \/ Ref \/ Auto \/ Raw \/ Break \/ Finish
+Next == Word \/ Space \/ Esc \/ OpenEm \/ CloseEm \/ Intra \/ Code \/ Link \/ NestedLink \/ Ref \/ Auto \/ Raw \/ Span \/ Break \/ Finish
 Spec == Init /\ [][Next]_vars
 TypeOK == Len(lines) <= 3 /\ Len(open) <= 3
 =============================================================================
